@@ -323,6 +323,10 @@ func c25fanout(ctx *vc.Ctx, bound int) {
 		if err != nil {
 			panic(err)
 		}
+		// an early stream (registered before the permanent ones) and a late one: removing a handler
+		// in front of others and behind them are different situations for the dispatch loop
+		early := &c25rec{}
+		a.RegisterEventHandler(early)
 		for i := 0; i < 3; i++ {
 			h := &c25rec{}
 			hs = append(hs, h)
@@ -339,9 +343,8 @@ func c25fanout(ctx *vc.Ctx, bound int) {
 			}
 		})
 		reg := vsched.Spawn("streams", func() {
-			x, y := &c25rec{}, &c25rec{}
-			a.RegisterEventHandler(x)
-			a.DeregisterEventHandler(x)
+			y := &c25rec{}
+			a.DeregisterEventHandler(early)
 			a.RegisterEventHandler(y)
 			a.DeregisterEventHandler(y)
 		})
